@@ -45,6 +45,9 @@ TRemove  == Ev.a = "Remove"  /\ (Accept(CanRemove(Ev.p), RemoveT(Ev.p), {Ev.p, P
 TChmod   == Ev.a = "Chmod"   /\ ((Accept(CanAttr(Ev.p), tree, {Ev.p}, {"mode"}) /\ At[Ev.p].mode = Ev.v) \/ Refuse({Ev.p}))
 TChown   == Ev.a = "Chown"   /\ ((Accept(CanAttr(Ev.p), tree, {Ev.p}, {"uid", "gid"}) /\ At[Ev.p].uid = Ev.v /\ At[Ev.p].gid = Ev.w) \/ Refuse({Ev.p}))
 TChtimes == Ev.a = "Chtimes" /\ ((Accept(CanAttr(Ev.p), tree, {Ev.p}, {"mt", "at"}) /\ At[Ev.p].mt = Ev.v /\ At[Ev.p].at = Ev.w) \/ Refuse({Ev.p}))
+\* Hold: a read-write handle on an existing file is opened and kept across the following calls; nothing changes
+THold == /\ Ev.a = "Hold" /\ Ev.res = "ok" /\ Clean /\ IsFile(Ev.p) /\ Api = tree /\ Api2 = tree
+         /\ AttrFrame({Ev.p}, {"at"}) /\ attr' = At /\ UNCHANGED <<tree, out>>
 \* Truncate is not among the calls C04 lists: here it is held to the FRAME only (every other path and
 \* attribute unchanged, live view = re-opened view, the target stays a file); what the target holds is adopted
 \* from the observation, and a difference from the plain tree's answer is printed as DRIFT (not a violation)
@@ -63,7 +66,7 @@ TTruncate == /\ Ev.a = "Truncate" /\ Ev.res \in {"ok", "err"} /\ Clean
 \* file outside the universe in pieces, reads it back live and after re-opening (bigok), removes it
 TChurn   == Ev.a \in {"Churn", "Churn2", "Straddle", "GroupEdge", "ManyExtents", "Full"} /\ Ev.res = "ok" /\ Clean /\ Api = tree /\ Api2 = tree /\ AttrFrame({Ev.p}, Times) /\ attr' = At /\ UNCHANGED <<tree, out>>
 TBigFile == Ev.a = "BigFile" /\ Ev.res = "ok" /\ Clean /\ Ev.bigok /\ Api = tree /\ Api2 = tree /\ AttrFrame({}, {}) /\ UNCHANGED vars
-Match == Ev.panic = "" /\ (TChurn \/ TBigFile \/ TTruncate \/ TMkdir \/ TCreate \/ TWrite \/ TAppend \/ TSymlink \/ TRemove \/ TChmod \/ TChown \/ TChtimes)
+Match == Ev.panic = "" /\ (TChurn \/ TBigFile \/ TTruncate \/ THold \/ TMkdir \/ TCreate \/ TWrite \/ TAppend \/ TSymlink \/ TRemove \/ TChmod \/ TChown \/ TChtimes)
 InRange  == l <= Len(Trace)
 Step     == InRange /\ ~skip /\ Ev.a # "Reset" /\ Match /\ l' = l + 1 /\ UNCHANGED skip
 Mismatch == /\ InRange /\ ~skip /\ Ev.a # "Reset" /\ ~ENABLED Match
